@@ -43,6 +43,13 @@ def extendable (rp : RP) (p : List Loc) : Bool :=
 
 /-! ### judges over planned steps (the cluster the plan would produce) -/
 
+/-- the replication settings for which `isGoodMove` is KNOWN to break a satisfied placement (open findings,
+    Props.move_breaks_outside_class): z = 0, x ≥ 1, y ≥ 2.  For every other setting Props.move_preserves_placement_partial
+    proves that an approved move cannot break it, so a broken placement there gets its own class (not a known finding). -/
+def knownBadRp (rp : RP) : Bool := rp.z == 0 && decide (rp.x ≥ 1) && decide (rp.y ≥ 2)
+def brokenClass (rp : RP) : String :=
+  if knownBadRp rp then "/placement-broken" else "/placement-broken-for-a-setting-proved-safe"
+
 def moveVol (t : Topo) (vid s d : Nat) : Topo :=
   match (t.find? (·.loc.id == s)).bind (fun sv => sv.allVols.find? (·.2.vid == vid)) with
   | none => t
@@ -77,7 +84,7 @@ def judgeMove (planner : String) (t0 t : Topo) (vid s d : Nat) : List String :=
     (if (repsOf t vid).any (·.id == d) then [planner ++ "/two-replicas-on-one-server"] else []) ++
     (if freeAt t0 d dt ≤ 0 then [planner ++ "/target-without-free-slot"]
      else if freeAt t d dt ≤ 0 then [planner ++ "/target-overfilled-by-plan"] else []) ++
-    (if satisfies (rpOfByte v.rp) before && !satisfies (rpOfByte v.rp) after then [planner ++ "/placement-broken"] else [])
+    (if satisfies (rpOfByte v.rp) before && !satisfies (rpOfByte v.rp) after then [planner ++ brokenClass (rpOfByte v.rp)] else [])
 
 def judgeMoves (planner : String) (t0 : Topo) : Topo → List (Nat × Nat × Nat) → List String
   | _, [] => []
